@@ -25,6 +25,13 @@ def actEngine (args : List String) : String :=
         | some none => "err"
         | some (some n) => s!"ok {showAState n}"
     else "bad-op"
+  | ["closepre2", who, h, s, k, rd] =>
+    let w : Option Caller := if who = "o" then some .owner else if who = "r" then some .receiver else if who = "x" then some .other else none
+    match w, pBool h, pAState s, pBool k, pBool rd with
+    | some w, some h, some s, some k, some rd =>
+      match closePreprocessBy w rd h s k with
+      | .asOwner => "ok owner" | .asKeeper => "ok keeper" | .denied => "err"
+    | _, _, _, _, _ => "bad-op"
   | ["closepre", o, h, s, k] =>
     match pBool o, pBool h, pAState s, pBool k with
     | some o, some h, some s, some k =>
